@@ -286,6 +286,30 @@ def m_str_split(I, state, frame, bi, t, args, span):
     return [(("iter", ("fresh", ("av", piece))), state)]     # `split` yields at least one piece
 
 
+@model("std::iter::Iterator::zip")
+def m_iter_zip(I, state, frame, bi, t, args, span):
+    """pairs the two sequences by position"""
+    def as_iter(v):
+        v = deref(I, state, v) if v[0] == "ref" else v
+        if v[0] == "iter":
+            return v[1]
+        if v[0] == "coll":
+            return total_tmpl(v) or ("av", v[1] if v[1] is not None else TOP)
+        return ("av", TOP)
+    ta, tb = as_iter(args[0]), as_iter(args[1])
+
+    def pieces(tm):
+        while isinstance(tm, tuple) and tm and tm[0] in ("fresh", "enum"):
+            tm = tm[1]
+        if isinstance(tm, tuple) and tm and tm[0] == "av" and tm[1] is not None and tm[1][0] == "str":
+            return frozenset(p_ for p_ in tm[1][1] if p_[0] == "piece")
+        return frozenset()
+    I.rec.put("zip", I.sitekey(frame, bi, -1),
+              dict(fn=frame.body.name, bb=bi, span=span, a=pieces(ta), b=pieces(tb), stack=frame.stack))
+    strip = lambda tm: tm[1] if (isinstance(tm, tuple) and tm and tm[0] == "fresh") else tm
+    return [(("iter", ("zip", strip(ta), strip(tb))), state)]
+
+
 @model("core::str::<impl str>::split_once")
 def m_split_once(I, state, frame, bi, t, args, span):
     s = str_of(I, state, args[0])
@@ -1295,6 +1319,12 @@ def instantiate(I, state, frame, bi, tmpl, span, anonymous=False, tag=""):
         for (e, st) in instantiate(I, state, frame, bi, tmpl[1], span, False, tag + "m"):
             for (rv, s2) in call_closure(I, st, frame, bi, tmpl[2], [e], span):
                 out.append((anonymise(rv) if anonymous else rv, s2))
+        return out
+    if k == "zip":
+        out = []
+        for (e1, st) in instantiate(I, state, frame, bi, tmpl[1], span, anonymous, tag + "za"):
+            for (e2, s2) in instantiate(I, st, frame, bi, tmpl[2], span, anonymous, tag + "zb"):
+                out.append((adt("tuple", {0: (e1, e2)}), s2))
         return out
     if k == "filter_map":
         out = []
